@@ -56,6 +56,72 @@ PROBES = [
 ]
 DISCR_PROBES = [[1], {"type": [1]}]
 
+# the theorems quantify over decoders raising ANY exception class; real leaf decoders only raise a few.
+# A user-supplied deserializer that raises on demand exercises the per-field handler with the other classes.
+HOSTILE_SRC = '''
+class Boom(BaseException):
+    pass
+def hostile(v):
+    if v == "base": raise Boom()
+    if v == "genexit": raise GeneratorExit()
+    if v == "sysexit": raise SystemExit(3)
+    if v == "attr": raise AttributeError("x")
+    if v == "key": raise KeyError("x")
+    if v == "lookup": raise LookupError("x")
+    if v == "stopiter": raise StopIteration()
+    if v == "assert": raise AssertionError()
+    if v == "recursion": raise RecursionError()
+    if v == "missingfield": raise MissingField("q", int, Inner)
+    if v == "extrakeys": raise ExtraKeysError({"q"}, Inner)
+    if v == "nodiscr": raise MissingDiscriminatorError("q")
+    return v
+from mashumaro.exceptions import MissingField, ExtraKeysError, MissingDiscriminatorError
+@dataclass
+class P_hostile(DataClassDictMixin):
+    a: int = 0
+    h: str = field(default="", metadata={"deserialize": hostile})
+    z: int = 0
+@dataclass
+class P_hostile_req(DataClassDictMixin):
+    h: str = field(metadata={"deserialize": hostile})
+    z: int
+    class Config(BaseConfig):
+        forbid_extra_keys = True
+'''
+HOSTILE_VALUES = ["base", "genexit", "sysexit", "attr", "key", "lookup", "stopiter", "assert", "recursion",
+                  "missingfield", "extrakeys", "nodiscr"]
+
+
+def hostile_once(mod, cls_name: str, entry: str, v: str):
+    """None if the per-field handler turns the decoder's exception into InvalidFieldValue('h', v, cls), else a description."""
+    cls = getattr(mod, cls_name)
+    fn = cls.from_dict if entry == "from_dict" else mod.BasicDecoder(cls).decode
+    d = {"h": v, "z": "bad", "a": 1} if cls_name == "P_hostile" else {"h": v, "z": "bad"}
+    try:
+        r = fn(d)
+        return f"returned {r!r}"
+    except BaseException as e:  # noqa: BLE001
+        if isinstance(e, (KeyboardInterrupt, MemoryError)):
+            raise
+        if type(e).__name__ == "InvalidFieldValue" and e.field_name == "h" and e.field_value is d["h"] and e.holder_class is cls:
+            return None
+        return f"{type(e).__name__}({O._attrs(e)}): {O.str_safe(e)[:80]}"
+
+
+def hostile_probe(ctx):
+    mod = G.build_module({"cls": "P_hostile", "source": HOSTILE_SRC})
+    for cls_name in ("P_hostile", "P_hostile_req"):
+        for entry in ("from_dict", "BasicDecoder.decode"):
+            for v in HOSTILE_VALUES:
+                ctx.count(("hostile", cls_name, entry, v))
+                bad = hostile_once(mod, cls_name, entry, v)
+                if bad is not None:
+                    ctx.fail(f"{cls_name}.{entry}: field decoder raising on {v!r} is not reported as InvalidFieldValue('h', {v!r}, {cls_name}): {bad}",
+                             {"entry": "hostile:" + entry, "schema": {"cls": cls_name, "source": HOSTILE_SRC}, "input_expr": repr(v),
+                              "prelude": "harness.props.c05_gen.PRELUDE", "observed": bad,
+                              "expected": f"InvalidFieldValue('h', {v!r}, {cls_name})"},
+                             {"kind": "hostile-decoder-leak", "entry": entry, "raised": v})
+
 
 # ---------------------------------------------------------------------------
 # running the real implementation
@@ -317,11 +383,19 @@ def run(ctx: vlib.Ctx):
         "pass through before from_dict starts",
     ]
     ctx.theorems("props/C05_errors.vo", THEOREMS)
+    if not ctx.quick():
+        # second opinion: the independent checker re-validates the compiled property file and its cone
+        rc, log, secs = vlib.run(["timeout", "900", "coqchk", "-silent", "-o", "-Q", "theories", "Verif", "-Q", "gen", "VerifGen",
+                                  "-Q", "props", "VerifProps", "VerifProps.C05_errors"], cwd=vlib.COQ, timeout=930)
+        ok = rc == 0 and "Axioms: <none>" in log
+        ctx.obligation("coqchk VerifProps.C05_errors (no axioms)", ok, log[-400:])
+        if not ok:
+            ctx.not_shown("coqchk VerifProps.C05_errors", log[-800:])
 
     rng = ctx.rng
-    n_schemas = ctx.budget(70, 700)
-    n_inputs = ctx.budget(14, 24)
-    corr_budget = ctx.budget(500, 6000)
+    n_schemas = ctx.budget(140, 2000)
+    n_inputs = ctx.budget(16, 24)
+    corr_budget = ctx.budget(500, 12000)
 
     class_cases, class_labels = [], []
     shape_checked = shape_bad = 0
@@ -398,6 +472,8 @@ def run(ctx: vlib.Ctx):
                 report(ctx, s, d_desc, O.check_case(s, mod, ref, metas, entry, fn, d_desc), entry)
                 ctx.count(("probe", s["cls"], entry))
 
+        hostile_probe(ctx)
+
         # ---- discriminated roots
         pm = G.prelude_module()
         dcases, dlabels, ncases, nlabels = [], [], [], []
@@ -434,7 +510,7 @@ def run(ctx: vlib.Ctx):
         # ---- unions (codec entry point): model of the try / fallback chain
         ucases, ulabels = [], []
         ref = O.Ref(pm)
-        for _ in range(ctx.budget(60, 500)):
+        for _ in range(ctx.budget(60, 1200)):
             k = rng.choice([2, 2, 3, 3, 4])
             members = rng.sample(UNION_MEMBERS, k)
             if k == 2 and "None" in members:
@@ -467,6 +543,15 @@ def _is_root_program(p: str, s: dict) -> bool:
 
 def replay(rep: dict) -> int:
     schema = rep["schema"]
+    if rep.get("entry", "").startswith("hostile:"):
+        try:
+            mod = G.build_module(schema, fresh_prelude=True)
+            bad = hostile_once(mod, schema["cls"], rep["entry"].split(":", 1)[1], eval(rep["input_expr"]))
+            print(f"{schema['cls']} decoder raising on {rep['input_expr']}: {bad or 'InvalidFieldValue as documented'}")
+            print("REPRODUCED" if bad else "not reproduced")
+            return 1 if bad else 0
+        finally:
+            G.cleanup_modules()
     if schema["source"] == "" and schema["cls"] not in ("Shape", "Plain2", "NoTag", "Circle", "Rect", "Inner", "InnerP"):
         print("unknown fixed schema")
         return 2
